@@ -100,6 +100,16 @@ def reader(ctx):
         ob3.instance("%s: rdata -> data FIFO" % tag, [str(c.stmt) for c in cons])
         if len(cons) != 1 or (cons[0].stmt.omit and cons[0].stmt.omit & {"valid", "ready", "data"}) or cons[0].stmt.keep is not None and not {"valid", "ready", "data"} <= cons[0].stmt.keep:
             ob3.refute("%s:rdata-connect" % tag, "returned data is not connected as a whole record into the data FIFO: %s" % [str(c.stmt) for c in cons], None)
+        # an output register / FIFO between the gated pop and the user (a lossless in-order stream primitive whose output is connected to the source with its
+        # valid): the reservation gating is then required at ITS input
+        real_source = source
+        hop = [l for l in v.leaves if l.kind == "connect" and l.inst == "" and key(l.target) == source and key(l.value).endswith(".source")
+               and key(l.value)[:-len(".source")] not in (dk, rk)
+               and any(str(o) == key(l.value)[:-len(".source")] and o.cls in ("Buffer", "SyncFIFO") for o in v.d.objs)
+               and "valid" not in (l.stmt.omit or set()) and "data" not in (l.stmt.omit or set()) and (l.stmt.keep is None or {"valid", "data"} <= l.stmt.keep)]
+        if len(hop) == 1:
+            source = key(hop[0].value)[:-len(".source")] + ".sink"
+            ob3.instance("%s: output stage" % tag, {"stage": key(hop[0].value)[:-len(".source")], "connect": str(hop[0].stmt)[:100]})
         sv = v.drivers(source + ".valid")
         ob3.instance("%s: source.valid" % tag, [str(x) for x in sv])
         for l in sv:
@@ -127,8 +137,10 @@ def reader(ctx):
         if rl is None or prim_keys(v, [(rl, True)]) != {sink + ".last"}:
             ob3.refute("%s:res.last" % tag, "the reservation entry's last is %s, expected the command's last (= sink.last)" % (key(rl) if rl is not None else None), None)
         dc = find_connect(v, src=dk + ".source", dst=source)
-        if len(dc) != 1 or (dc[0].stmt.omit and "data" in dc[0].stmt.omit):
+        da = [l for l in v.drivers(source + ".data") if key(l.value) == dk + ".source.data" and not l.guards]
+        if (len(dc) != 1 or (dc[0].stmt.omit and "data" in dc[0].stmt.omit)) and len(da) != 1:
             ob3.refute("%s:data-out" % tag, "data FIFO output is not forwarded to the source", None)
+        source = real_source
 
 
 def _single(v, k):
